@@ -17,7 +17,7 @@ TESTS = {
     "C05": [s1("TestC05_S1Bookkeeping", 30000, 200000), s1("TestC05_S1Burst", 1000, 10000), s1("TestC05_S3Bookkeeping", 5000, 60000, timeout_t=2400), s1("TestC05_S4Bookkeeping", 300, 3000, timeout_t=2400), s1("TestC05_S1Mid", 3000, 40000, timeout_t=2400)],
     "C06": [s1("TestC06_S1Events", 30000, 200000), s1("TestC06_S1Burst", 1000, 10000), s1("TestC06_S3Events", 5000, 60000, timeout_t=2400), s1("TestC06_S4Events", 300, 3000, timeout_t=2400), s1("TestC06_S1Mid", 3000, 40000, timeout_t=2400)],
     "C07": [s1("TestC07_S1Justified", 40000, 250000, qshards=8), s1("TestC07_S1Mid", 3000, 40000, timeout_t=2400)],
-    "C08": [s1("TestC08_SingleFlight", 50000, 400000, qshards=6), s1("TestC08_S4Overlap", 600, 6000, timeout_t=2400)],
+    "C08": [s1("TestC08_SingleFlight", 50000, 400000, qshards=6), s1("TestC08_S4Overlap", 600, 6000, timeout_t=2400), s1("TestC08_S4BulkCycles", 400, 5000, timeout_t=2400)],
     "C09": [s1("TestC09_WritePlacement", 50000, 400000, qshards=8), s1("TestC09_S1LateReloads", 30000, 250000, qshards=6), s1("TestC09_S4SlowWrites", 80, 1500, timeout_t=2400)],
     "C10": [s1("TestC10_S1Loads", 40000, 250000, qshards=8), s1("TestC10_S2Waiters", 40000, 300000)],
     "C11": [s1("TestC11_S1Refresh", 40000, 250000, qshards=6), s1("TestC11_S1NoRefresh", 3000, 30000, qshards=1, tshards=4), s1("TestC11_S2InFlight", 30000, 250000), s1("TestC11_S2RefreshResults", 30000, 250000)],
